@@ -148,9 +148,9 @@ def Sys.deadlockDate (s : Sys) : Rat :=
 def Actor.die (x : Actor) (t : Rat) (byMaestro : Bool) : Actor :=
   match x.life with
   | .live =>
-    let b := x.canRun t && x.inJoin.isNone
+    let b := x.canRun t
     { x with life := .dying t, suspended := false, suspendedAt := none, breath := b, wake := if b then x.wake else none
-             inJoin := none, byMaestro := byMaestro }
+             inJoin := if b then x.inJoin else none, byMaestro := byMaestro }
   | _ => x      -- `kill`: "Ignoring request to kill actor that is already dead"; absent actors do not exist
 
 /-- `EngineImpl::run`: `if (actor_list_.size() == daemons_.size()) for (dmon : daemons_) maestro_->kill(dmon);`
@@ -334,7 +334,8 @@ def step (s : Sys) : Label → List Sys
   | .joined a i t =>
     let x := s.acts a
     if ¬ (a < s.k ∧ s.timeOk t) then [] else
-    if ¬ (x.canRun t ∧ x.inJoin = some i) then [] else
+    -- (a victim killed in the round in which its join returned still prints the line)
+    if ¬ ((x.canRun t ∨ x.lastBreath t) ∧ x.inJoin = some i) then [] else
     ({ s with clock := t, acts := upd s.acts a { x with inJoin := none } } : Sys).settleL
   | .exitCb a g t =>
     let x := s.acts a
@@ -351,18 +352,18 @@ def step (s : Sys) : Label → List Sys
         (runCallback s a g t x).toList.flatMap Sys.settleL
       else []
     | .live =>
-      if x.killAt = some t then
-        -- the kill timer fires: `this->exit()`
-        (runCallback s a g t (x.die t false)).toList.flatMap Sys.settleL
-      else if x.canRun t ∧ x.pc = x.ops.length ∧ x.inJoin = none then
-        -- its code returned
+      -- the kill timer fires: `this->exit()`
+      (if x.killAt = some t then (runCallback s a g t (x.die t false)).toList.flatMap Sys.settleL else []) ++
+      -- its code returned
+      (if x.canRun t ∧ x.pc = x.ops.length ∧ x.inJoin = none then
         let s := s.assignHandle a
         (runCallback s a g t ((s.acts a).die t false)).toList.flatMap Sys.settleL
-      else if s.noObligation ∧ t = s.deadlockDate then
-        -- deadlock: nothing can happen any more, maestro kills every remaining actor (in pid order)
+       else []) ++
+      -- deadlock: nothing can happen any more, maestro kills every remaining actor (in pid order)
+      (if s.noObligation ∧ t = s.deadlockDate then
         let s1 : Sys := { s with clock := t, acts := fun i => if i < s.k then (s.acts i).die t true else s.acts i }
         if s1.lowerMaestroPending a then [] else (runCallback s1 a g t (s1.acts a)).toList.flatMap Sys.settleL
-      else []
+       else [])
     | _ => []
   | .finish t =>
     if t = s.clock ∧ s.ids.all (fun i => (s.acts i).life = .absent ∨ (s.acts i).life = .dead ∨ (s.acts i).ghost) then [s] else []
